@@ -69,6 +69,10 @@ fn decoder_outputs_prefix(enc: &str, chunks: &[Vec<u8>]) -> (Vec<Vec<u8>>, ()) {
 
 fn gen(args: &Args, emit: &mut dyn FnMut(Value)) {
     let mut rng = seeded(args.seed);
+    // deterministic boundary families (long held tails, long buffers, many siblings): in EVERY run
+    for bc in boundary_cases() {
+        emit(json!({"body": hex(&bc.body), "filters": bc.filters.iter().map(|f| f.to_json()).collect::<Vec<_>>(), "headers": [], "scheds": scheds_json(&bc.scheds), "shape": bc.shape}));
+    }
     for n in 0..args.n {
         let (s, shape) = gen_body(&mut rng);
         let mut body = s.into_bytes();
